@@ -235,8 +235,22 @@ func genC08Consensus(g *G) {
 			}
 			faulty = append(faulty, val(v, g.R.Intn(6) != 0))
 		}
+		tag := "selector"
+		if g.R.Intn(6) == 0 {
+			// two camps of correct observers, each large enough on its own (>= f+1 votes), of unequal size:
+			// which of the two qualifying values is selected is part of the function's contract
+			honest = honest[:0]
+			x, y := pool[g.R.Intn(len(pool))], pool[g.R.Intn(len(pool))]
+			for k := f + 1 + g.R.Intn(3); k > 0; k-- {
+				honest = append(honest, val(x, true))
+			}
+			for k := f + 1 + g.R.Intn(3); k > 0; k-- {
+				honest = append(honest, val(y, true))
+			}
+			tag = "two-camps"
+		}
 		vals, hidx := mercLabelled(g, honest, faulty)
-		g.Emit(J{"op": "mercury.consensus." + opn, "f": f, "vals": vals, "honest": hidx}, "selector", opn, "f="+S(f))
+		g.Emit(J{"op": "mercury.consensus." + opn, "f": f, "vals": vals, "honest": hidx}, tag, opn, "f="+S(f))
 	}
 	// ---- small vote tables, exhaustive: every vector over {a, b, c, invalid}^n, n ≤ 4 (5 thorough)
 	for _, opn := range selOps {
